@@ -28,16 +28,40 @@ def main(argv=None):
     except ImportError as e:
         print('ANALYSIS-ERROR property=%s no checker module: %s' % (a.pid, e))
         return 2
+    # resource guards: source that leaves the fragment in an unforeseen way may make the interpretation blow up; that is an
+    # analysis failure (exit 2), never a kill signal that looks like a verdict
+    class _Timeout(Exception):
+        pass
+    try:
+        import resource, signal
+        mb = int(os.environ.get('SA_MEM_LIMIT_MB', '8192'))
+        resource.setrlimit(resource.RLIMIT_AS, (mb * 1024 * 1024, mb * 1024 * 1024))
+        def _alarm(sig, frm):
+            raise _Timeout()
+        signal.signal(signal.SIGALRM, _alarm)
+        signal.alarm(int(os.environ.get('SA_TIME_LIMIT_S', '900' if a.tier == 'quick' else '3600')))
+    except (ImportError, ValueError, OSError):
+        pass
     try:
         repo = Repo()
         rep = Report(a.pid, a.tier, repo)
         mod.run(rep, repo, a.tier)
+        try:
+            signal.alarm(0)
+        except Exception:
+            pass
         if a.tier == 'thorough' and not a.no_selftest and not os.environ.get('SA_NO_SELFTEST'):
             from . import selftest
             rep.selftest = selftest.run_for(a.pid)
         return rep.finish()
     except AnalysisError as e:
         print('ANALYSIS-ERROR property=%s %s' % (a.pid, e))
+        return 2
+    except _Timeout:
+        print('ANALYSIS-ERROR property=%s the analysis did not finish within its time limit (SA_TIME_LIMIT_S): the source left the fragment the interpreter handles in bounded time' % a.pid)
+        return 2
+    except MemoryError:
+        print('ANALYSIS-ERROR property=%s the analysis exceeded its memory limit (SA_MEM_LIMIT_MB)' % a.pid)
         return 2
     except Exception as e:  # never let a traceback look like a violation
         traceback.print_exc()
